@@ -1249,8 +1249,9 @@ fn main() {
 		c["k"].as_u64()
 	});
 	let n_runs: u64 = run.tier.pick(64, 640);
-	let deadline: f64 = run.tier.pick(60.0, 420.0);
-	let wd: u64 = run.tier.pick(300, 900);
+	// caps, not durations: an idle machine is through the list in well under a minute (quick)
+	let deadline: f64 = run.tier.pick(180.0, 900.0);
+	let wd: u64 = run.tier.pick(480, 1500);
 	let mut extra: Vec<String> = vec!["--n".into(), n_runs.to_string(), "--deadline".into(), deadline.to_string()];
 	let n_workers = if let Some(k) = only_replay {
 		extra.extend(["--only-run".to_string(), k.to_string()]);
